@@ -2,7 +2,7 @@ SPECIFICATION Spec
 CONSTANTS
   MinArity = 2
   MaxArity = 2
-  Stride = 13
+  Stride = 3
   Offset = 0
 INVARIANT SigOK
 CHECK_DEADLOCK FALSE
